@@ -4,11 +4,12 @@
    Step 1 (wire formats): fragment header and LOWPAN_NHC UDP header.
    Step 2 (fragmentation arithmetic and reassembly): dispatch_sixlowpan / dispatch_sixlowpan_frag,
    process_sixlowpan_fragment over the C15 tracker.
-   Step 3 (LOWPAN_IPHC): Repr::emit / Repr::parse with address reconstruction. *)
+   Step 3 (LOWPAN_IPHC): Repr::emit / Repr::parse with address reconstruction.
+   Step 4 (whole datagrams): sixlowpan_to_ipv6 with decompress_ext_hdr / decompress_udp. *)
 From SV Require Import Lib.Base Gen.Consts Gen.WireFields Model.WireBase Model.WireSixFrag Model.WireNhc.
-From SV Require Import Model.Assembler Model.LowpanFrag Model.WireIphc.
+From SV Require Import Model.Assembler Model.LowpanFrag Model.WireIphc Model.Lowpan.
 From SV Require Import Proofs.WireBaseProofs Proofs.AssemblerProofs Proofs.LowpanWireProofs Proofs.LowpanFragProofs.
-From SV Require Import Proofs.LowpanIphcBitsProofs Proofs.LowpanIphcProofs.
+From SV Require Import Proofs.LowpanIphcBitsProofs Proofs.LowpanIphcProofs Proofs.LowpanProofs.
 
 (* ---------- fragment header (FRAG1 / FRAGN) ---------- *)
 
@@ -216,3 +217,20 @@ Theorem C20_iphc_parse_no_panic : forall b lls lld ctx,
   (iphc_check_len b = Ok tt -> iphc_payload b <> Panic /\ iphc_header_len b <> Panic).
 Proof. exact iphc_parse_total. Qed.
 Print Assumptions C20_iphc_parse_no_panic.
+
+(* ---------- step 4: decompression of whole datagrams ---------- *)
+
+(* decompress_no_panic: sixlowpan_to_ipv6 -- IPHC parse, the next-header loop, decompress_ext_hdr,
+   decompress_udp and every length computation in them -- never panics: for ALL octet strings (of at
+   most 65527 octets; an 802.15.4 frame has 127), any link-layer addresses, any context table of
+   8-octet prefixes, any buffer of at least 40 octets and, for a first fragment, any announced
+   datagram size of at least 40 (what process_sixlowpan_fragment checks).  What it writes fits the
+   buffer (the assert! of PacketAssembler::add_with). *)
+Theorem C20_decompress_no_panic : forall ctx lls lld b total_len buflen,
+  bytes_ok b = true -> blen b < 65528 -> iphc_ll_wf lls = true -> iphc_ll_wf lld = true ->
+  lp_ctx_wf ctx ->
+  lp_IPV6_HDR <= buflen -> (forall t, total_len = Some t -> lp_IPV6_HDR <= t) ->
+  lp_sixlowpan_to_ipv6 ctx lls lld b total_len buflen <> Panic /\
+  forall d, lp_sixlowpan_to_ipv6 ctx lls lld b total_len buflen = Ok d -> blen d <= buflen.
+Proof. exact lp_sixlowpan_to_ipv6_total. Qed.
+Print Assumptions C20_decompress_no_panic.
